@@ -2225,6 +2225,11 @@ def iter_adaptors(E, frame, b, t, sts, c, quiet):
         elif item == 'enumerate':
             idx = mk_int(0, max(ln[2] - 1, 0))
             res = ('O', 'iter', (('A', (idx, el)), ln))
+            its_ = _iter_items(args[0])
+            if its_ is not None and len(args[0][2]) == 4:
+                # literal source: (constant index, item) pairs
+                rest = its_[args[0][2][3]:]
+                res = ('O', 'iter', (('A', (idx, el)), const_int(len(rest)), tuple(('A', (const_int(i), x)) for i, x in enumerate(rest)), 0))
         elif item == 'zip':
             p2 = _iter_payload(args[1])
             if p2 is None:
